@@ -33,6 +33,7 @@ type Plan struct {
 	Episodes   int
 	Batch      int  // scenarios per world process (1 = process per episode)
 	NeedRace   bool // build the -race world
+	NeedFine   bool // build the world with rule R4 (function-entry yields)
 	Exhaustive bool // the enumerated core of this tier is complete
 	Assumptions []string
 	RealStub   map[string][]string
@@ -118,7 +119,7 @@ func RunCheck(p Property, opt Options) int {
 	if opt.Episodes > 0 {
 		plan.Episodes = opt.Episodes
 	}
-	env, err := BuildWorlds(opt.VerifDir, opt.RepoDir, plan.NeedRace, false, nil)
+	env, err := BuildWorlds(opt.VerifDir, opt.RepoDir, plan.NeedRace, plan.NeedFine, nil)
 	defer env.Cleanup()
 	if err != nil {
 		logf("BUILD-TROUBLE: %v", err)
@@ -131,6 +132,37 @@ func RunCheck(p Property, opt Options) int {
 		return 2
 	}
 
+	// determinism self-test as part of every thorough run: a sample of episodes twice, hashes must agree
+	selfN := 0
+	if opt.Tier == "thorough" {
+		selfN = 24
+		step := plan.Episodes / selfN
+		if step < 1 {
+			step = 1
+		}
+		div := 0
+		var mu sync.Mutex
+		var swg sync.WaitGroup
+		for i := 0; i < plan.Episodes && i/step < selfN; i += step {
+			swg.Add(1)
+			go func(i int) {
+				defer swg.Done()
+				a := hashRun(env.execWith([]*scen.Scenario{p.Gen(opt.Seed, i, opt.Tier)}, 60*time.Second, []string{"GOMAXPROCS=1"})[0])
+				b := hashRun(env.execWith([]*scen.Scenario{p.Gen(opt.Seed, i, opt.Tier)}, 60*time.Second, []string{"GOMAXPROCS=8"})[0])
+				if a != b {
+					mu.Lock()
+					div++
+					mu.Unlock()
+				}
+			}(i)
+		}
+		swg.Wait()
+		if div > 0 {
+			logf("DETERMINISM-SELFTEST-FAILED: %d of %d sampled episodes gave different event logs when run twice (simulator problem)", div, selfN)
+			return 2
+		}
+		logf("determinism self-test: %d episodes x 2 runs (GOMAXPROCS 1 and 8) identical", selfN)
+	}
 	workers := opt.Workers
 	if workers <= 0 {
 		workers = 16
@@ -207,6 +239,7 @@ func RunCheck(p Property, opt Options) int {
 	}()
 
 	ev := newEvidence(p, opt, plan)
+	ev.selfN = selfN
 	firstByKey := map[string]episodeOut{}
 	countByKey := map[string]int{}
 	inconclusive := 0
@@ -439,7 +472,7 @@ func RunReplay(props map[string]Property, path string, opt Options) int {
 		return 2
 	}
 	logf("VERIF_SEED=%d replay property=%s rule=%s witness=%s", rp.Seed, rp.Property, rp.Rule, rp.Witness)
-	env, err := BuildWorlds(opt.VerifDir, opt.RepoDir, rp.Scenario.World.Race, false, nil)
+	env, err := BuildWorlds(opt.VerifDir, opt.RepoDir, rp.Scenario.World.Race, rp.Scenario.World.Fine, nil)
 	defer env.Cleanup()
 	if err != nil {
 		logf("BUILD-TROUBLE: %v", err)
